@@ -1,7 +1,7 @@
 """C19 — PSD and signal utilities conserve what they claim to conserve (DESIGN.md section 6/C19).
 
-Tie: correspondence between the Lean models (lean/PyYetiVerif/Model/{Fixtime,Psd,Resample}.lean, run
-through Drivers/C19.lean) and the code in /repo's working tree:
+Tie: correspondence between the Lean models (lean/PyYetiVerif/Model/{Fixtime,FixtimeTnew,FixtimeDrops,Psd,PsdOct,
+Resample}.lean, run through Drivers/C19.lean) and the code in /repo's working tree:
 
   exact (model at Rat, dyadic inputs)
     * np.searchsorted (both sides)                          vs ssLeft / ssRight
@@ -9,11 +9,21 @@ through Drivers/C19.lean) and the code in /repo's working tree:
     * the numba variants of the two routines (source text only: numba is absent; the `else:` branch of
       `if not HAVE_NUMBA:` is extracted with `ast`, the decorators are dropped and the text is exec'd
       as plain Python — a transcription, flagged as such)   vs closestSeq / prevSeq
-    * dsp.fixtime end to end: returned samples              vs y_clean[closest|prevIdx(told_clean, tnew)]
+    * dsp.fixtime's cleaning bookkeeping: fixinfo.alldrops.{dropouts, outtimes, alldrops} (positions in the record
+      as given, after the optional sort)                    vs fixtimeDrops (_del_drops/_del_outtimes/_get_alldrops)
+    * dsp._mk_initial_tnew called directly, and fixtime's returned time vector end to end
+                                                            vs mkInitialTnew on the MODEL's cleaned times (exact when
+                                                               the alignment shift is dyadic, else 1e-9*dt: np.mean)
+    * dsp.fixtime end to end: returned samples              vs y_clean[closest|prevIdx(told_clean, tnew)], told_clean
+                                                               from the model's bookkeeping, not from fixinfo
     * len(dsp.resample(...)), len(tnew)                     vs resampleLen
+    * rescale._get_fl_fu and rescale's input-edge block (SOURCE TEXT of the nested function / of the statement pair,
+      extracted with `ast` and exec'd: `translate`)         vs getFlFu / inEdges at Rat on exactly linear dyadic scales
   numeric (model at Float with the same expression order, or at Rat; |impl - model| <= 1e-9*scale)
-    * psd.area, psd.interp (log and linear), psd.rescale (freq= and n_oct= paths, linear / log /
-      linear-within-tolerance scales, extendends on/off), dsp.resample FIR taps and output.
+    * psd.area, psd.interp (log and linear), psd.rescale (freq= and n_oct= paths, linear / log / linear-within-tolerance
+      / nearly-linear scales on both sides of the 1e-12 test, extendends on/off), the band edges of every such scale
+      (bit-equal in the linear branch), psd.get_freq_oct (exact / approximate, three trims, anchors),
+      dsp.resample FIR taps and output incl. constants and integer / float32 / list storage of the data.
 
 The model-free oracle (`search`) restates the property on the public API only.
 """
@@ -26,7 +36,9 @@ from fractions import Fraction
 
 import numpy as np
 
-from runner import Infra
+import textwrap
+
+from runner import Infra, TieBroken
 
 ID = "C19"
 LEAN_MODULES = ["PyYetiVerif.Props.C19", "PyYetiVerif.Audit.C19"]
@@ -40,56 +52,91 @@ THEOREMS = ["PyYetiVerif.C19." + n for n in (
     "rescale_conserves_extendends rescale_telescopes rescale_density area_segment "
     "area_segment_tolerance_band_inexact area_additive interp_at_breakpoints "
     "interp_log_at_breakpoints "
+    "interpolant_is_piecewise_power_law area_is_integral_of_interpolant upsample_keeps_samples_full "
+    "constants_reproduced resample_kept_sample_times tnew_round_half_even tnew_uniform "
+    "edges_partition_linear edges_partition_linear_tolerance edges_partition_log edges_dispatch "
+    "edges_extendends_rule freq_oct_bands freq_oct_ratio alldrops_indices_are_full_record_positions "
 ).split()]
 TRUSTED = [
     "correspondence harness harness/props/c19.py (exact comparison on dyadic times; numeric 1e-9*scale elsewhere)",
     "np.searchsorted on a sorted array = number of leading elements < v (left) / <= v (right): re-measured every run",
-    "np.interp, scipy interp1d(kind='linear'), scipy.signal.lfilter (FIR), np.cumsum, np.mean: modelled by their "
-    "documented formulas, re-measured numerically every run",
-    "scipy.signal.windows.kaiser: an input of the resample model (no Bessel function in Lean); only w[M/2] = 1 is used by a theorem",
+    "np.interp, scipy interp1d(kind='linear'), scipy.signal.lfilter (FIR), np.cumsum, np.mean, np.std, np.argsort, np.argmax, "
+    "np.arange, np.nonzero, Python round(): modelled by their documented formulas, re-measured every run",
+    "scipy.signal.windows.kaiser: an input of the resample model (no Bessel function in Lean); only w[M/2] = 1 is used by a "
+    "theorem (hypothesis of upsample_keeps_samples_full), re-measured through the numeric resample stream",
     "numba variants of _find_closest_times/_find_closest_previous_times: source text exec'd as plain Python "
     "(numba not installed), assumed to have Python loop semantics under numba",
-    "IEEE rounding of the log/exp/sqrt/sin kernels; float results are compared numerically, never proved",
+    "rescale._get_fl_fu and rescale's input-edge block: the source text of the nested function / statement pair exec'd as "
+    "plain Python (they cannot be called from outside rescale); rescale as a whole is compared numerically as well",
+    "which samples are drop-outs (nan / inf / within 1 % of dropval) is an input of the bookkeeping model, computed by the harness",
+    "IEEE rounding of the log/exp/sqrt/sin/pow/log2 kernels; float results are compared numerically, never proved",
 ]
 RULE = (
     "a case is one call of a routine compared with the model: (told, tnew) pairs on dyadic grids with ties, "
-    "duplicates, gaps and out-of-range new times; fixtime inputs with jitter/gaps/shifts/drop-outs/unsorted samples x "
-    "hold_previous_value x previous_value_tol; (n, p, q, pts, axis) for resample; specifications with 2-7 break points "
-    "and slopes including exactly -1, the 1e-8 tolerance band and the former 1e-5 band; (P, F, freq|n_oct, extendends) for rescale over "
-    "linear/log/tolerance-linear scales. non-trivial = the case reaches a non-default branch (a tie, an out-of-range "
-    "time, a clipped end band, the s=-1 branch, p>1 and q>1, ...); distinct by the canonical input"
+    "duplicates, gaps and out-of-range new times; fixtime inputs with jitter/gaps/shifts/drop-outs (nan, inf, dropval)/stray "
+    "time stamps beyond 3 sigma/unsorted samples, alone and COMBINED in one record in random order x hold_previous_value x "
+    "previous_value_tol x deldrops x delouttimes; sorted dyadic time vectors for _mk_initial_tnew (aligned, too many turning "
+    "points, length mismatch, half-step span); (n, p, q, pts, axis, storage dtype) for resample; specifications with 2-7 break "
+    "points and slopes including exactly -1, the 1e-8 tolerance band and the former 1e-5 band; (P, F, freq|n_oct, extendends) "
+    "for rescale over linear/log/tolerance-linear/nearly-linear scales (one step off by 1e-13 ... 1e-3 relative); centre "
+    "scales for the band edges; (n, frange, exact, trim, anchor) for get_freq_oct. non-trivial = the case reaches a "
+    "non-default branch (a tie, an out-of-range time, a clipped end band, the s=-1 branch, p>1 and q>1, a shifted or "
+    "unaligned time base, ...); distinct by the canonical input"
 )
 ASSUMPTIONS = [
     "float arithmetic on the generated dyadic times is exact (differences and comparisons of multiples of 2^-8 below 2^12)",
-    "psd inputs are positive, frequencies strictly increasing (the documented domain of area/interp/rescale)",
+    "psd inputs are positive, frequencies strictly increasing (the documented domain of area/interp/rescale); a scale that is "
+    "not linear is read as logarithmic and must be positive",
+    "fixtime is modelled for a numeric sr, delspikes=False, base=None, negmethod='sort' with distinct times; records whose "
+    "time lies within 1e-8 (relative, squared) of the 3-sigma outlier threshold are skipped and counted",
+    "get_freq_oct inputs whose trimming decision lies within 1e-9 of a band centre/edge are skipped and counted",
 ]
 PARTIAL = (
     "partial (accuracy): Lanczos interpolation accuracy vs pts and anti-aliasing are measured by the oracle, not proved; "
-    "upsample_keeps_samples is proved at the level of the FIR taps (`upsample_taps`: taps vanish at non-zero multiples "
-    "of p, centre tap = window centre) - the convolution step is tied numerically only; constants_reproduced is checked by "
-    "the oracle only; area_is_integral (integral of the whole log-log interpolant = area) is proved per segment "
-    "(`area_segment`) plus list additivity (`area_additive`), the gluing over the interpolant is not formalised; "
-    "fixtime's time-base construction (_mk_initial_tnew, despiking, sample-rate heuristics) is outside the model: the "
-    "index rule is tied end to end on fixtime's own tnew; rescale's log-scale edges (sqrt) are tied numerically, the "
-    "theorems take the band edges as given; area's remaining |s+1| < 1e-8 branch is proved to be within the relative "
-    "amount |s+1|*ln(f2/f1) of the integral, not equal to it (`area_segment_tolerance_band_inexact`)"
+    "upsample_keeps_samples_full and constants_reproduced are proved for the whole modelled pipeline over the reals - the "
+    "Kaiser window is an input (hypothesis: centre value 1) and float round-off (e.g. mean of a constant not exactly the "
+    "constant) is measured only; storage types (integer, float32, lists) are covered by correspondence/oracle only, the "
+    "model works on numbers; fixtime: the time base is modelled for numeric sr / delspikes=False / base=None "
+    "(tnew_uniform: exact arithmetic progression, length, end rule) - not proved: that _mk_initial_tnew never raises on "
+    "sorted input with >= 2 samples and a bound on the alignment shift delt (both measured exactly by correspondence); "
+    "sr='auto' (sample-rate statistics), despiking and `base` are outside the model; the outlier-time test is decided "
+    "exactly in the model ((t-mean)^2 > 9 var), the code uses float mean/std: near ties are skipped; np.mean's division in "
+    "delt is exact in the model, rounded in the code (compared at 1e-9*dt when delt is not dyadic); rescale: the edge "
+    "partition is proved per branch (edges_partition_linear/_linear_tolerance/_log, edges_dispatch), the log branch's sqrt "
+    "is tied numerically; get_freq_oct: band relations are proved for whatever is returned (freq_oct_bands), the trimming "
+    "rules and the band count (floor/log2) are tied numerically and checked by the oracle, not proved; psd2time's "
+    "mean-square conservation (Parseval), psdmod = max of Welch slices and proc_psd_spec's NaN rule are oracle checks only; "
+    "area's remaining |s+1| < 1e-8 branch is proved to be within the relative amount |s+1|*ln(f2/f1) of the integral, not "
+    "equal to it (`area_segment_tolerance_band_inexact`), so area_is_integral_of_interpolant carries the slope hypothesis"
 )
 MANIFEST = {
     "level_text": "Proof (Lean 4, kernel-checked, standard axioms only) about executable models of the searchsorted-"
     "based nearest/previous-sample rules of fixtime (returned index minimises |told[i]-t| with ties to the earlier "
     "time; last index with told[i] <= t, 0 if none; strictly increasing data is mapped to itself for any tolerance "
-    "shift below the smallest gap), of resample's length pipeline (= ceil(n*p/q)), of rescale's cumulative-area "
-    "bookkeeping over any ordered field (np.interp of the cumulative sum is the integral of the piecewise-constant "
-    "PSD; every band's mean-square is the overlap integral; sums telescope; extendends rescales by covered width), of "
-    "area's segment formula (Mathlib integral_rpow: equals the integral of p1 (f/f1)^s for s = -1 and for |s+1| >= "
-    "1e-8, within |s+1| ln(f2/f1) relative inside the band; additivity; area = integral of the log-log interpolant) and of log-log interpolation at break points; resample's FIR taps vanish at non-zero multiples of p when upsampling. "
-    "Models are tied to /repo by exact correspondence on dyadic inputs (index rules, lengths, fixtime end to end) and "
-    "numeric correspondence (1e-9) for area/interp/rescale/resample. Partial: interpolation accuracy of the Lanczos "
-    "filter and fixtime's time-base heuristics are measured, not proved.",
+    "shift below the smallest gap), of fixtime's cleaning bookkeeping (outlier times found in the drop-out-filtered vector "
+    "are full-record positions and the kept set composes: alldrops_indices_are_full_record_positions) and time base "
+    "(_mk_initial_tnew is an exact arithmetic progression of round(span*sr)+1 points ending within half a step of the "
+    "last old time: tnew_uniform), of resample's whole pipeline (length = ceil(n*p/q); when q <= p and the window centre "
+    "is 1 output sample i*p' IS input sample i*q': upsample_keeps_samples_full; constants are reproduced for every "
+    "window: constants_reproduced; sample times t0 + j*dt*q/p), of rescale's cumulative-area bookkeeping over any ordered "
+    "field (np.interp of the cumulative sum is the integral of the piecewise-constant PSD; every band's mean-square is "
+    "the overlap integral; sums telescope; extendends rescales by covered width) and of its band edges (linear: shared "
+    "edges, centre = middle; within the 1e-12 tolerance: gap below 1e-12*|Df|; logarithmic: shared edges = geometric "
+    "means, end centres geometric means of their edges; extendends clips at the band EDGE), of area (Mathlib "
+    "integral_rpow per segment; area(spec) = interval integral of the whole log-log interpolant psd.interp over [f0, fn]: "
+    "area_is_integral_of_interpolant; additivity; tolerance band bounded), of log-log interpolation (piecewise power law; "
+    "exact at break points) and of get_freq_oct's bands (FU/FL = 2^(1/n) or 10^(3/(10n)), F = sqrt(FL*FU), contiguous). "
+    "Models are tied to /repo by exact correspondence on dyadic inputs (index rules, bookkeeping, time base, lengths, "
+    "linear band edges, fixtime end to end) and numeric correspondence (1e-9) for area/interp/rescale/edges/"
+    "get_freq_oct/resample. Partial: interpolation accuracy of the Lanczos filter, fixtime's sample-rate heuristics and "
+    "despiking, get_freq_oct's trimming arithmetic and psd2time's Parseval identity are measured, not proved.",
     "level_note": "Trusted: Lean kernel; propext, Classical.choice, Quot.sound; the Python harness; numpy/scipy "
-    "kernels as listed in trusted_base; numba variants are source text only.",
-    "technique": "Lean 4 proof (list induction for index rules and cumulative area, Mathlib interval integrals for "
-    "area) + exact/numeric differential correspondence with pyyeti.dsp / pyyeti.psd",
+    "kernels as listed in trusted_base; numba variants and rescale's nested edge code are source text only. Tied or "
+    "measured only (not proved): float round-off everywhere, storage dtypes, the Kaiser window values, the 3-sigma "
+    "statistics in floating point, _mk_initial_tnew's totality and shift bound, get_freq_oct's trimming, psd2time, psdmod.",
+    "technique": "Lean 4 proof (list induction for index rules, cumulative area, convolution and bookkeeping; Mathlib "
+    "interval integrals for area; rpow for octave bands) + exact/numeric differential correspondence with pyyeti.dsp / "
+    "pyyeti.psd + ast extraction of nested source text",
 }
 
 # ---------------------------------------------------------------------------------------
@@ -167,6 +214,60 @@ def _numba_source(repo):
 
 
 # ---------------------------------------------------------------------------------------
+# rescale's band-edge code: source text -> plain Python (never by calling rescale)
+
+_EDGE_SRC = None  # (get_fl_fu, in_edges) once `translate` has run
+
+
+def _assigned(stmts):
+    out = set()
+    for st in stmts:
+        if isinstance(st, ast.Assign):
+            for t in st.targets:
+                for n in ([t] if isinstance(t, ast.Name) else list(getattr(t, "elts", []))):
+                    if isinstance(n, ast.Name):
+                        out.add(n.id)
+    return out
+
+
+def _rescale_edge_source(repo):
+    """the nested `_get_fl_fu(fcenter)` of psd.rescale and the statement pair
+    `Df = np.diff(F)` / `if <exact test>: FLin, FUin = ... else: FLin, FUin = _get_fl_fu(F)`, exec'd as
+    plain Python from the source text"""
+    src = open(os.path.join(repo, "pyyeti", "psd.py")).read()
+    tree = ast.parse(src)
+    resc = next((n for n in tree.body if isinstance(n, ast.FunctionDef) and n.name == "rescale"), None)
+    if resc is None:
+        raise TieBroken("psd.py: function `rescale` not found")
+    gf = next((n for n in resc.body if isinstance(n, ast.FunctionDef) and n.name == "_get_fl_fu"), None)
+    if gf is None or len(gf.args.args) != 1:
+        raise TieBroken("psd.rescale: nested `_get_fl_fu(fcenter)` not found")
+    blk = None
+    for a, b in zip(resc.body, resc.body[1:]):
+        if (isinstance(a, ast.Assign) and _assigned([a]) == {"Df"} and isinstance(b, ast.If)
+                and {"FLin", "FUin"} <= _assigned(b.body) and {"FLin", "FUin"} <= _assigned(b.orelse)):
+            blk = (a, b)
+    if blk is None:
+        raise TieBroken("psd.rescale: the `Df = np.diff(F)` / `if ...: FLin, FUin = ... else: ...` block not found")
+    ns = {"np": np}
+    mod = ast.Module(body=[gf], type_ignores=[])
+    ast.fix_missing_locations(mod)
+    exec(compile(mod, "<psd.py rescale._get_fl_fu>", "exec"), ns)
+    text = "def _in_edges(F):\n" + textwrap.indent(ast.unparse(blk[0]) + "\n" + ast.unparse(blk[1]), "    ") \
+           + "\n    return FLin, FUin\n"
+    exec(compile(text, "<psd.py rescale input-edge block>", "exec"), ns)
+    return ns["_get_fl_fu"], ns["_in_edges"]
+
+
+def translate(ctx):
+    global _EDGE_SRC
+    _EDGE_SRC = None
+    _EDGE_SRC = _rescale_edge_source(ctx.repo)
+    ctx.extra["rescale_edge_code"] = "source text of rescale._get_fl_fu and of the input-edge block, exec'd as plain Python"
+    return ["psd.rescale._get_fl_fu (source text)", "psd.rescale input-edge block (source text)"]
+
+
+# ---------------------------------------------------------------------------------------
 # generators
 
 GRID = 256  # times are multiples of 1/GRID
@@ -212,7 +313,10 @@ def _f(v):
 
 def _gen_fixtime(rng, kind=None):
     """one fixtime input: dict(t, y, sr, hold, tol, deldrops, delouttimes, kind)"""
-    kind = kind or rng.choice(["uniform", "jitter", "gaps", "shifts", "dropouts", "unsorted", "dups", "mixed", "ties"])
+    kind = kind or rng.choice(["uniform", "jitter", "gaps", "shifts", "dropouts", "unsorted", "dups", "mixed", "ties",
+                               "stray", "combined", "combined"])
+    if kind in ("stray", "combined"):
+        return _gen_fixtime_combined(rng, kind)
     sr = 2 ** rng.choice([0, 1, 2, 3, 4])
     u = GRID // sr  # one step in grid units (>= 16)
     n = rng.randint(6, 60)
@@ -255,12 +359,115 @@ def _gen_fixtime(rng, kind=None):
             "deldrops": rng.random() < 0.85, "delouttimes": rng.random() < 0.5, "kind": kind}
 
 
+def _gen_fixtime_combined(rng, kind):
+    """records that COMBINE defects: drop-outs of every flavour (nan, inf, dropval), a stray time stamp more than
+    3 sigma from the mean, gaps, jitter and samples out of order - applied in a random order; distinct data values"""
+    sr = 2 ** rng.choice([0, 1, 2, 3, 4])
+    u = GRID // sr
+    n = rng.randint(24, 70)
+    t0 = rng.randint(-400, 400) * rng.choice([1, u])
+    ts = [t0 + k * u for k in range(n)]
+    y = [1000.0 + k * 0.25 for k in range(n)]
+    defects = ["stray"] if kind == "stray" else ["stray", "drops"] + rng.sample(["jitter", "gaps", "unsorted", "drops2", "stray2"], rng.randint(0, 3))
+    if kind == "stray" and rng.random() < 0.5:
+        defects.append("drops")
+    rng.shuffle(defects)
+    for dfc in defects:
+        m = len(ts)
+        span = max(ts) - min(ts)
+        if dfc in ("stray", "stray2"):
+            far = (3 + rng.randint(0, 3)) * span + rng.randint(1, 5) * u
+            i = rng.choice([m - 1, m - 1, 0, rng.randrange(m)])
+            ts[i] = (max(ts) + far) if rng.random() < 0.75 else (min(ts) - far)
+        elif dfc in ("drops", "drops2"):
+            for _ in range(rng.randint(1, 4)):
+                y[rng.randrange(m)] = rng.choice([float("nan"), float("inf"), float("-inf"), DROPVAL, DROPVAL])
+        elif dfc == "jitter":
+            ts = [v + rng.randint(-u // 8, u // 8) for v in ts]
+        elif dfc == "gaps":
+            i = rng.randrange(2, m - 3)
+            k = rng.randint(1, 4)
+            del ts[i:i + k]
+            del y[i:i + k]
+        elif dfc == "unsorted" and len(set(ts)) == len(ts):
+            i = rng.randrange(m - 1)
+            ts[i], ts[i + 1] = ts[i + 1], ts[i]
+            y[i], y[i + 1] = y[i + 1], y[i]
+    if len(set(ts)) != len(ts):  # a determinate sort needs distinct times
+        ts = sorted(set(ts))
+        y = y[:len(ts)]
+    hold = rng.random() < 0.4
+    tol = rng.choice([0.0, 1.0 / 1024, 0.125]) if hold else 1e-3
+    return {"t": [v / GRID for v in ts], "y": ["%r" % v for v in y], "sr": sr, "hold": hold, "tol": tol,
+            "deldrops": rng.random() < 0.9, "delouttimes": rng.random() < 0.8, "kind": kind}
+
+
 def _yarr(c):
     return np.array([float(v) for v in c["y"]])
 
 
+DROPVAL = -1.40130e-45  # fixtime's default `dropval`
+
+
+def _sorted_record(c):
+    """(t, y, sortvec) as fixtime sees the record after _chk_negsteps (sorted only if a step is negative)"""
+    t = np.array(c["t"], dtype=float)
+    y = _yarr(c)
+    if (np.diff(t) < 0).any():
+        j = np.argsort(t)
+        return t[j], y[j], j
+    return t, y, None
+
+
+def _drop_flags(y):
+    """which samples are drop-outs: nan, inf, or within 1 % of `dropval`"""
+    bad = ~np.isfinite(y)
+    ok = ~bad
+    bad[ok] = np.abs(y[ok] - DROPVAL) < abs(DROPVAL) / 100
+    return bad
+
+
+def _clean_ref(c):
+    """brute-force reference for fixtime's documented steps 1-2 (independent of pyyeti): remove the drop-outs (if
+    `deldrops`), then the times more than 3 standard deviations from the mean of what is left (if `delouttimes`).
+    -> (t_valid, y_valid, {dropouts, outtimes, alldrops} as positions in the record as given, near-tie?)"""
+    t, y, sv = _sorted_record(c)
+    n = len(t)
+    pos = np.arange(n) if sv is None else np.asarray(sv)
+    bad = _drop_flags(y) if c["deldrops"] else np.zeros(n, bool)
+    kept = np.nonzero(~bad)[0]
+    tk = [Fraction(float(x)) for x in t[kept]]
+    out = np.zeros(n, bool)
+    tie = False
+    if len(tk) >= 2:
+        mn = sum(tk) / len(tk)
+        var9 = 9 * sum((x - mn) ** 2 for x in tk) / (len(tk) - 1)
+        for i, x in zip(kept, tk):
+            d2 = (x - mn) ** 2
+            out[i] = d2 > var9
+            if var9 > 0 and abs(d2 - var9) <= Fraction(1, 10 ** 8) * var9:
+                tie = True
+    final = ~bad & ~(out if c["delouttimes"] else np.zeros(n, bool))
+    drops = {"dropouts": sorted(int(i) for i in pos[bad]) if c["deldrops"] else None,
+             "outtimes": sorted(int(i) for i in pos[out]),
+             "alldrops": sorted(int(i) for i in pos[~final])}
+    return t[final], y[final], drops, tie
+
+
+def _info_drops(info):
+    """fixinfo.alldrops as plain lists (None when fixtime returned early: only drop-outs)"""
+    ad = info.alldrops
+    if ad is None or isinstance(ad, tuple):
+        return None
+
+    def lst(v):
+        return None if v is None else sorted(int(i) for i in np.asarray(v).ravel())
+
+    return {"dropouts": lst(ad.dropouts), "outtimes": lst(ad.outtimes), "alldrops": lst(ad.alldrops)}
+
+
 def _run_fixtime(c):
-    """-> (tnew, ynew, told_clean, y_clean) or ('error', kind)"""
+    """-> (tnew, ynew, fixinfo.alldrops as lists | None) or ('error', kind)"""
     from pyyeti import dsp
 
     t = np.array(c["t"], dtype=float)
@@ -273,16 +480,7 @@ def _run_fixtime(c):
                 deldrops=c["deldrops"], delouttimes=c["delouttimes"], getall=True, verbose=False)
     except Exception as e:  # noqa: BLE001
         return ("error", type(e).__name__)
-    mask = np.ones(len(t), bool)
-    ad = info.alldrops
-    if isinstance(ad, tuple):  # the "only drop-outs" early return hands back _get_alldrops' whole tuple
-        ad = ad[-1]
-    if ad is not None and ad.alldrops is not None:
-        mask[np.asarray(ad.alldrops, dtype=int)] = False
-    if (np.diff(t) < 0).any():
-        j = np.argsort(t)
-        t, y, mask = t[j], y[j], mask[j]
-    return np.asarray(tn), np.asarray(yn), t[mask], y[mask]
+    return np.asarray(tn), np.asarray(yn), _info_drops(info)
 
 
 def _gen_spec(rng, nprng):
@@ -346,6 +544,12 @@ def _slopes(spec):
     return out
 
 
+def _lin_dev(v):
+    """max |Df/Df[0] - 1| of a centre-frequency scale (the quantity rescale._get_fl_fu compares with 1e-12)"""
+    d = np.diff(np.asarray(v, dtype=float))
+    return float(np.max(np.abs(d / d[0] - 1.0))) if len(d) and d[0] != 0 else float("inf")
+
+
 def _gen_scale(rng, nprng, kind, lo=None, n=None):
     """centre frequencies: 'lin' (dyadic, exactly linear), 'lintol' (linear within 1e-12 only), 'log'"""
     n = n or rng.randint(3, 24)
@@ -361,15 +565,49 @@ def _gen_scale(rng, nprng, kind, lo=None, n=None):
         if np.all(df == df[0]):
             v[-1] = float(np.nextafter(v[-1], np.inf))
         return v
+    if kind == "nearlin":
+        # linear except for one step that is off by a relative amount on either side of the code's 1e-12
+        for _ in range(50):
+            d = rng.choice([0.25, 0.5, 1.0, 3.0])
+            a = rng.choice([0.5, 1.0, 2.0]) if lo is None else float(lo)
+            m = min(n, 12)
+            delta = rng.choice([1e-13, 2e-13, 2e-11, 1e-9, 1e-7, 1e-5, 1e-3])
+            j = rng.randrange(1, m)
+            v = [a + k * d + (d * delta if k >= j else 0.0) for k in range(m)]
+            dev = _lin_dev(v)
+            if 0 < dev < 3e-13 or dev > 1e-11:
+                return v
+        return [a + k * d for k in range(m)]
     r = rng.choice([2 ** 0.5, 2 ** (1 / 3), 1.3, 2.0, 1.1])
     a = rng.choice([0.5, 1.0, 3.0, 10.0]) if lo is None else float(lo)
     return [a * r ** k * (1.0 if k % 3 else 1.0 + rng.choice([0.0, 0.01])) for k in range(n)]
 
 
+def _nearlin_from(v, rng):
+    """perturb one step of a linear scale by a relative amount clearly below or clearly above 1e-12"""
+    v = [float(x) for x in v]
+    if len(v) < 3:
+        return v
+    d = v[1] - v[0]
+    if v[0] <= 0:  # a scale that is not linear is read as logarithmic: positive frequencies only
+        sh = float(math.ceil(-v[0] / d) + 1) * d
+        v = [x + sh for x in v]
+    for _ in range(30):
+        delta = rng.choice([1e-13, 2e-13, 2e-11, 1e-9, 1e-7, 1e-5, 1e-3])
+        j = rng.randrange(1, len(v))
+        w = [x + (d * delta if k >= j else 0.0) for k, x in enumerate(v)]
+        dev = _lin_dev(w)
+        if 0 < dev < 3e-13 or dev > 1e-11:
+            return w
+    return v
+
+
 def _gen_rescale(rng, nprng):
-    kin = rng.choice(["lin", "lin", "lintol", "log"])
-    kout = rng.choice(["lin", "lin", "lintol", "log", "log"])
-    F = _gen_scale(rng, nprng, kin)
+    kin = rng.choice(["lin", "lin", "lintol", "log", "nearlin"])
+    kout = rng.choice(["lin", "lin", "lintol", "log", "log", "nearlin"])
+    F = _gen_scale(rng, nprng, "lin" if kin == "nearlin" else kin)
+    if kin == "nearlin":
+        F = _nearlin_from(F, rng)
     if kin != "log" and F[0] == 0.0 and kout == "log":
         pass
     span = F[-1] - F[0]
@@ -397,10 +635,12 @@ def _gen_rescale(rng, nprng):
             lo_, hi_ = F[0], F[-1]
         else:
             lo_, hi_ = F[0] - 0.5 * span, F[-1] + 0.5 * span
-        if kout == "lin":
+        if kout in ("lin", "nearlin"):
             d = Fraction(max(1, int((hi_ - lo_) * 64 / (n - 1))), 64)
             a = Fraction(int(lo_ * 64), 64)
             freq = [float(a + k * d) for k in range(n)]
+            if kout == "nearlin":
+                freq = _nearlin_from(freq, rng)
         else:
             d = (hi_ - lo_) / (n - 1) * 1.0000001
             freq = [lo_ + k * d for k in range(n)]
@@ -510,28 +750,77 @@ def _corr_fixtime(ctx, drv):
     # F11's input: exactly uniform data, hold_previous_value, tolerance 0
     cases.append({"t": (np.arange(10) / 8).tolist(), "y": ["%r" % float(v) for v in range(1, 11)], "sr": 8, "hold": True,
                   "tol": 0.0, "deldrops": True, "delouttimes": True, "kind": "uniform"})
+    # one nan drop-out early on and a stray time stamp at the end; the same with the stray first in the file
+    for tt in (np.hstack((np.arange(30.0), 200.0)), np.hstack((200.0, np.arange(30.0)))):
+        yy = [1000.0 + k for k in range(31)]
+        yy[10] = float("nan")
+        yy[12] = DROPVAL
+        cases.append({"t": tt.tolist(), "y": ["%r" % v for v in yy], "sr": 1, "hold": False, "tol": 1e-3, "deldrops": True,
+                      "delouttimes": True, "kind": "combined"})
+    cases += [_gen_fixtime(rng, "combined") for _ in range(20)]
     cases += [_gen_fixtime(rng) for _ in range(ctx.pick(1500, 10000))]
-    runs = []
+    # phase 1: the index bookkeeping (_del_drops, _del_outtimes, _get_alldrops) from the model
+    pre = []
     req = []
     for c in cases:
         r = _run_fixtime(c)
-        if r[0] is None or (isinstance(r[0], str) and r[0] == "error"):
+        if isinstance(r[0], str) and r[0] == "error":
             ctx.count("fixtime:error-" + r[1])
             ctx.skip("fixtime raised " + r[1])
             continue
-        tn, yn, tc, yc = r
-        if len(tc) == 0:
+        tn, yn, drops = r
+        if drops is None:
             ctx.skip("fixtime: only drop-outs")
             continue
+        ts_, ys_, sv = _sorted_record(c)
+        flags = _drop_flags(ys_)
+        req.append("fxd %d %d | %s | %s | %s" % (c["deldrops"], c["delouttimes"], _qs(ts_), " ".join("1" if b_ else "0" for b_ in flags),
+                                                 "" if sv is None else " ".join(str(int(i)) for i in sv)))
+        pre.append((c, tn, yn, drops, ts_, ys_))
+    rep1 = drv.ask(req)
+    runs = []
+    req = []
+    for (c, tn, yn, drops, ts_, ys_), r1 in zip(pre, rep1):
+        md, mo, ma, mk = r1.split("|")
+        model = {"dropouts": None if md.strip() == "none" else [int(x) for x in md.split()], "outtimes": [int(x) for x in mo.split()],
+                 "alldrops": [int(x) for x in ma.split()]}
+        keep = [int(x) for x in mk.split()]
+        _, _, _, tie = _clean_ref(c)
+        if tie:
+            ctx.skip("fixtime: a time within rounding of the 3-sigma outlier threshold")
+            continue
+        if model["outtimes"]:
+            ctx.count("branch:fixtime-outlier-time")
+            if model["dropouts"] and (min(model["dropouts"]) < max(model["outtimes"])):
+                ctx.count("branch:fixtime-dropout-and-outlier-time")
+        if model["dropouts"] and any(abs(float(v) - DROPVAL) < abs(DROPVAL) / 100 for v in c["y"] if v not in ("nan", "inf", "-inf")):
+            ctx.count("branch:fixtime-dropval-dropout")
+        if drops != model:
+            ctx.disagree("fixtime-alldrops", c, drops, model)
+        if len(keep) == 0:
+            ctx.skip("fixtime: nothing left after cleaning")
+            continue
+        tc, yc = ts_[keep], ys_[keep]
         dt = 1 / c["sr"]
         if c["hold"]:
             ts = tc - dt * c["tol"]
             req.append("pv %s | %s" % (_qs(ts), _qs(tn)))
         else:
             req.append("cl %s | %s" % (_qs(tc), _qs(tn)))
+        req.append("mkt %s | %s" % (_q(c["sr"]), _qs(tc)))
         runs.append((c, tn, yn, tc, yc))
     rep = drv.ask(req)
-    for (c, tn, yn, tc, yc), r in zip(runs, rep):
+    for k, (c, tn, yn, tc, yc) in enumerate(runs):
+        r, rt = rep[2 * k], rep[2 * k + 1]
+        # the time base fixtime returns is the modelled _mk_initial_tnew of the cleaned, sorted old times
+        if rt in ("raises", "bad-op"):
+            ctx.disagree("fixtime-tnew", c, {"len": len(tn)}, rt)
+        else:
+            ok, exact, m = _cmp_tnew(tn, rt, 1 / c["sr"])
+            ctx.count("branch:fixtime-tnew-end-to-end")
+            if not ok:
+                ctx.disagree("fixtime-tnew", c, {"tnew": np.asarray(tn).tolist()[:10], "len": len(tn)},
+                             {"tnew": [float(x) for x in m["tnew"][:10]], "len": len(m["tnew"]), "delt": str(m["delt"])})
         if r in ("index-error", "bad-op"):
             ctx.disagree("fixtime-index", c, "returned %d samples" % len(yn), r)
             continue
@@ -544,6 +833,26 @@ def _corr_fixtime(ctx, drv):
             ctx.count("branch:fixtime-previous-tol0")
         if len(yn) != len(want) or not np.array_equal(yn, want, equal_nan=True):
             ctx.disagree("fixtime-index", c, ["%r" % v for v in yn.tolist()], ["%r" % v for v in want.tolist()])
+
+
+_DTYPES = ["int16", "int32", "int64", "uint8", "float32", "list"]
+
+
+def _typed_numbers(nprng, ln, dtn):
+    """(storage object, the same numbers as float64) for a signal of `ln` samples stored as `dtn`"""
+    if dtn == "float32":
+        v = nprng.normal(size=ln).astype(np.float32)
+        return v, v.astype(np.float64)
+    lo, hi = (0, 256) if dtn == "uint8" else (-300, 300)
+    v = nprng.integers(lo, hi, size=ln)
+    return _as_dtype(v.astype(np.float64), dtn), v.astype(np.float64)
+
+
+def _as_dtype(x, dtn):
+    x = np.asarray(x)
+    if dtn == "list":
+        return [int(v) for v in x.tolist()]
+    return x.astype(getattr(np, dtn))
 
 
 def _corr_resample(ctx, drv):
@@ -584,6 +893,7 @@ def _corr_resample(ctx, drv):
     # taps and output (numeric)
     nprng = ctx.np_rng(19)
     ncases = []
+    dtypes = {}
     for _ in range(ctx.pick(80, 500)):
         p, q = rng.randint(1, 5), rng.randint(1, 5)
         pts = rng.randint(1, 4)
@@ -593,7 +903,19 @@ def _corr_resample(ctx, drv):
         M = 2 * pts * max(p // g, q // g)
         w = signal.windows.kaiser(M + 1, beta)
         data = nprng.normal(size=ln) + rng.choice([0.0, 3.0])
+        if rng.random() < 0.15:
+            data = np.full(ln, float(rng.choice([3.0, -0.375, 0.1, 1e6 + 0.3])))
+        elif rng.random() < 0.45:
+            # the same numbers stored with another dtype (raw counts, single precision, a Python list)
+            dtn = rng.choice(_DTYPES)
+            data = _typed_numbers(nprng, ln, dtn)[1]
+            dtypes[len(ncases)] = dtn
         ncases.append((p, q, pts, beta, w, data))
+    for p, q, pts, cval in ((3, 1, 3, 3.0), (2, 1, 2, 0.1), (4, 6, 2, -0.375), (1, 5, 3, 1e6 + 0.3)):
+        g = math.gcd(p, q)
+        w = signal.windows.kaiser(2 * pts * max(p // g, q // g) + 1, 14)
+        ncases.append((p, q, pts, 14, w, np.full(11, cval)))
+        ncases.append((p, q, pts, 14, w, nprng.normal(size=11)))
     req = []
     for p, q, pts, beta, w, data in ncases:
         req.append("fir %d %d %d | %s" % (p, q, pts, _bits(w)))
@@ -601,9 +923,30 @@ def _corr_resample(ctx, drv):
     rep = drv.ask(req)
     for k, (p, q, pts, beta, w, data) in enumerate(ncases):
         out, fir = dsp.resample(data, p, q, pts=pts, beta=beta, getfir=True)
+        if k in dtypes:
+            # the model works on the numbers; the implementation gets them in the stated storage type
+            typed = _as_dtype(data, dtypes[k])
+            out_t = dsp.resample(typed, p, q, pts=pts, beta=beta)
+            mo_ = _unbits(rep[2 * k + 1])
+            tol_ = 1e-4 if dtypes[k] == "float32" else 1e-9
+            g_ = math.gcd(p, q)
+            ctx.count("branch:resample-dtype-" + dtypes[k])
+            if p // g_ > 1 and dtypes[k] != "float32":
+                ctx.count("branch:resample-integer-dtype-upsampled")
+            if not _close(out_t, mo_, max(1.0, np.abs(data).max()) * max(1.0, np.abs(fir).sum()), tol=tol_):
+                ctx.disagree("resample-dtype", {"p": p, "q": q, "pts": pts, "beta": beta, "dtype": dtypes[k], "data": data.tolist()},
+                             np.asarray(out_t, dtype=float).tolist(), mo_.tolist())
         mf, mo = _unbits(rep[2 * k]), _unbits(rep[2 * k + 1])
         inp = {"p": p, "q": q, "pts": pts, "beta": beta, "data": data.tolist()}
         ctx.case(("rs", p, q, pts, beta, tuple(data.tolist())), nontrivial=True, branch="resample-numeric")
+        g = math.gcd(p, q)
+        if q // g == 1 and p // g > 1:
+            ctx.count("branch:resample-upsample-q1")
+            # the model's retained samples (theorem upsample_keeps_samples_full) against the input itself
+            if not _close(mo[::p // g], data, max(1.0, np.abs(data).max()), tol=1e-12):
+                ctx.disagree("resample-model-keeps-samples", inp, data.tolist(), mo[::p // g].tolist())
+        if np.all(data == data[0]):
+            ctx.count("branch:resample-constant-input")
         if not _close(fir, mf, max(1.0, np.abs(fir).max())):
             ctx.disagree("resample-fir", inp, fir.tolist(), mf.tolist())
         if not _close(out, mo, max(1.0, np.abs(data).max()) * max(1.0, np.abs(fir).sum())):
@@ -709,6 +1052,9 @@ def _corr_rescale(ctx, drv):
         clipped_first = oL[lo] < FLr[0]
         clipped_last = oU[hi - 1] > FUr[-1]
         ctx.case(("rescale", json.dumps(c, sort_keys=True)), nontrivial=clipped_first or clipped_last or c["kout"] != "lin", branch=br)
+        for tag, v in (("in", F), ("out", freq)):
+            if c["k" + tag] == "nearlin" and 0 < _lin_dev(v):
+                ctx.count("branch:rescale-nearlin-%s-tol" % ("below" if _lin_dev(v) < 1e-12 else "above"))
         if clipped_first:
             ctx.count("branch:rescale-first-band-straddles-input-edge")
         if clipped_last:
@@ -791,15 +1137,239 @@ def _corr_rescale(ctx, drv):
             ctx.disagree("rescale-n_oct", c, {"psd": np.asarray(po).tolist(), "ms": np.asarray(ms).tolist()}, {"psd": mp_.tolist(), "ms": mm.tolist()})
 
 
+# ----- fixtime's time base -----------------------------------------------------------------
+
+def _gen_told_for_tnew(rng):
+    """(sr, sorted dyadic told) covering the branches of _mk_initial_tnew / _get_time_shifts"""
+    kind = rng.choice(["fixtime", "fixtime", "fixtime", "alternating", "drift", "halfspan", "short"])
+    if kind == "fixtime":
+        c = _gen_fixtime(rng)
+        t = sorted(c["t"])
+        return c["sr"], t, "fixtime-" + c["kind"]
+    sr = 2 ** rng.choice([0, 1, 2, 3, 4])
+    u = GRID // sr
+    n = rng.randint(2, 40)
+    t0 = rng.randint(-400, 400)
+    if kind == "alternating":      # every step is off by half a step: all points are turning points
+        steps = [u // 2 if k % 2 else 3 * u // 2 for k in range(n - 1)]
+    elif kind == "drift":          # steps 9/8 of nominal: inside the 1/4-step tolerance, lengths mismatch
+        steps = [u + u // 8] * (n - 1)
+    elif kind == "halfspan":       # (told[-1] - told[0])*sr = k + 1/2: the tie of round()
+        steps = [u] * (n - 2) + [u + u // 2] if n > 2 else [u + u // 2]
+    else:
+        n = rng.randint(2, 4)
+        steps = [rng.choice([u, u, 2 * u, u // 4, 5 * u // 4, 3 * u // 4]) for _ in range(n - 1)]
+    ts = [t0]
+    for st in steps:
+        ts.append(ts[-1] + st)
+    return sr, [v / GRID for v in ts], kind
+
+
+def _cmp_tnew(tn, rep, dt):
+    """compare a returned time vector with the model's reply; -> (ok, exact?, model dict)"""
+    a, b, al, delt, mm = rep.split("|")
+    mt = _unq(a)
+    m = {"tnew": mt, "tp": [int(x) for x in b.split()], "align": al == "1", "delt": Fraction(delt), "mismatch": mm == "1"}
+    den = m["delt"].denominator
+    dyadic = den & (den - 1) == 0 and den <= 2 ** 30
+    if len(mt) != len(tn):
+        return False, dyadic, m
+    it = [Fraction(float(x)) for x in tn]
+    if dyadic:
+        return it == mt, True, m
+    tol = Fraction(1, 10 ** 9) * Fraction(dt)
+    return all(abs(x - y) <= tol for x, y in zip(it, mt)), False, m
+
+
+def _corr_tnew(ctx, drv):
+    from pyyeti import dsp
+
+    rng = ctx.rng
+    cases = [(1, [0.0, 1.0, 5.0, 6.0], "doc"), (1, [0.0, 4.0], "doc"), (8, (np.arange(10) / 8).tolist(), "uniform"),
+             (1, [0.0, 2.5], "halfspan"), (1, [0.0, 1.0, 2.0, 3.5], "halfspan"), (2, [0.0, 0.5, 1.0, 1.75], "halfspan")]
+    cases += [_gen_told_for_tnew(rng) for _ in range(ctx.pick(1500, 12000))]
+    rep = drv.ask(["mkt %s | %s" % (_q(sr), _qs(t)) for sr, t, _ in cases])
+    for (sr, t, kind), r in zip(cases, rep):
+        told = np.array(t, dtype=float)
+        dt = 1 / sr
+        inp = {"sr": sr, "told": t}
+        try:
+            with warnings.catch_warnings():
+                _quiet()
+                tn, tp = dsp._mk_initial_tnew(told.copy(), sr, dt, np.diff(told))
+            impl = "ok"
+        except (ValueError, IndexError) as e_:
+            impl = "raises"
+        if impl == "raises" or r == "raises":
+            ctx.case(("tnew", sr, tuple(t)), nontrivial=False, branch="tnew:raises")
+            if impl != r:
+                ctx.disagree("mk-initial-tnew", inp, impl, r)
+            continue
+        ok, exact, m = _cmp_tnew(tn, r, dt)
+        span = Fraction(t[-1]) - Fraction(t[0])
+        half = (span * sr) % 1 == Fraction(1, 2)
+        br = "no-align" if not m["align"] else "align-length-mismatch" if m["mismatch"] else "align-mean"
+        ctx.case(("tnew", sr, tuple(t)), nontrivial=br != "align-mean" or m["delt"] != 0 or half, branch="tnew:" + br)
+        ctx.count("branch:tnew-" + br)
+        if half:
+            ctx.count("branch:tnew-round-half-tie")
+        if exact:
+            ctx.count("branch:tnew-exact-compare")
+        if m["delt"] != 0:
+            ctx.count("branch:tnew-shifted")
+        if not ok or [int(i) for i in tp] != m["tp"]:
+            ctx.disagree("mk-initial-tnew", inp, {"tnew": np.asarray(tn).tolist()[:10], "len": len(tn), "tp": [int(i) for i in tp][:12]},
+                         {"tnew": [float(x) for x in m["tnew"][:10]], "len": len(m["tnew"]), "tp": m["tp"][:12], "delt": str(m["delt"])})
+
+
+# ----- band edges (rescale._get_fl_fu and the input-scale test) -------------------------------
+
+def _corr_edges(ctx, drv):
+    if _EDGE_SRC is None:
+        ctx.skip("rescale's edge code was not found in the source text (translator obligation is broken)")
+        return False
+    get_fl_fu, in_edges = _EDGE_SRC
+    rng = ctx.rng
+    nprng = ctx.np_rng(29)
+    cases = [([0.0, 5.0, 10.0], "lin"), ([1.0, 2.0, 4.0, 8.0], "log"), ([1.0, 2.0, 3.0 + 3e-13], "nearlin"),
+             ([1.0, 2.0, 3.0 + 1e-9], "nearlin"), ([1.0, 2.0], "lin")]
+    for _ in range(ctx.pick(600, 5000)):
+        kind = rng.choice(["lin", "lintol", "nearlin", "nearlin", "log"])
+        cases.append((_gen_scale(rng, nprng, kind), kind))
+    req = []
+    for c, kind in cases:
+        req += ["edges " + _bits(c), "inedges " + _bits(c), "edgesq " + _qs(c), "inedgesq " + _qs(c)]
+    rep = drv.ask(req)
+    for k, (c, kind) in enumerate(cases):
+        arr = np.array(c, dtype=float)
+        with np.errstate(all="ignore"):
+            FL, FU = get_fl_fu(arr.copy())
+            FLi, FUi = in_edges(arr.copy())
+        dev = _lin_dev(c)
+        zone = "exact" if dev == 0 else "below-tol" if dev < 1e-12 else "above-tol"
+        ctx.case(("edges", tuple(c)), nontrivial=zone != "exact", branch="edges:" + zone)
+        if kind == "nearlin" and zone != "exact":
+            ctx.count("branch:edges-nearlin-" + zone)
+        inp = {"centres": c}
+        for nm, (a, b), r in (("edges-get-fl-fu", (FL, FU), rep[4 * k]), ("edges-input-scale", (FLi, FUi), rep[4 * k + 1])):
+            ml, mu, flag = r.split("|")
+            ml, mu = _unbits(ml), _unbits(mu)
+            lin = flag == "1"
+            scale = float(np.max(np.abs(arr))) + 1.0
+            good = (np.array_equal(a, ml) and np.array_equal(b, mu)) if lin else (_close(a, ml, scale) and _close(b, mu, scale))
+            if not good:
+                ctx.disagree(nm, inp, {"FL": np.asarray(a).tolist(), "FU": np.asarray(b).tolist()}, {"FL": ml.tolist(), "FU": mu.tolist(), "linear": lin})
+            ctx.count("branch:%s-%s" % (nm, "linear" if lin else "log"))
+        for nm, (a, b), r in (("edges-get-fl-fu-rational", (FL, FU), rep[4 * k + 2]), ("edges-input-scale-rational", (FLi, FUi), rep[4 * k + 3])):
+            if r == "nonlinear" or zone != "exact":
+                continue
+            ml, mu = r.split("|")
+            if [Fraction(float(x)) for x in a] != _unq(ml) or [Fraction(float(x)) for x in b] != _unq(mu):
+                # exact only when the float arithmetic was exact: dyadic centres
+                if all(Fraction(x).denominator <= 2 ** 20 for x in c):
+                    ctx.disagree(nm, inp, {"FL": np.asarray(a).tolist(), "FU": np.asarray(b).tolist()}, {"FL": ml, "FU": mu})
+            else:
+                ctx.count("branch:edges-exact-rational")
+    return True
+
+
+# ----- get_freq_oct ----------------------------------------------------------------------------
+
+def _gen_oct(rng):
+    n = rng.choice([1, 3, 6, 12, 2, 24])
+    s = rng.choice([0.0, -1.0, 0.8, 1.0, 5.0, 20.0, 505.0, 10 ** rng.uniform(-1, 3)])
+    e = max(s, 1.0) * rng.choice([1.0, 1.01, 1.3, 2.0, 10.0, 100.0, 10 ** rng.uniform(0, 2.5)])
+    return {"n": n, "s": s, "e": e, "exact": rng.random() < 0.5, "trim": rng.choice(["outside", "center", "inside", "band"]),
+            "anchor": rng.choice([None, None, 2.0, 100.0, 0.5])}
+
+
+def _oct_near_tie(c):
+    """is a trimming decision or the band count within rounding of a tie? (then log2/pow kernels decide)"""
+    n, ex = c["n"], c["exact"]
+    a = c["anchor"] or (1000.0 if ex else 1.0)
+    s = c["s"] if c["s"] > 0 else 1.0
+    step = math.log(2.0) / n if ex else math.log(10.0) * 3 / (10 * n)
+    for v in (s, c["e"]):
+        x = math.log(v / a) / step          # position in bands; centres at integers, edges at half-integers
+        for y in (x, x * 2):
+            if abs(y - round(y)) < 1e-9 * max(1.0, abs(y)):
+                return True
+    return False
+
+
+def _corr_oct(ctx, drv):
+    from pyyeti import psd
+
+    rng = ctx.rng
+    cases = [{"n": 3, "s": 505.0, "e": 900.0, "exact": False, "trim": "outside", "anchor": None},
+             {"n": 3, "s": 505.0, "e": 900.0, "exact": False, "trim": "center", "anchor": None},
+             {"n": 3, "s": 505.0, "e": 900.0, "exact": True, "trim": "outside", "anchor": None},
+             {"n": 6, "s": 0.8, "e": 2.6, "exact": True, "trim": "outside", "anchor": 2.0}]
+    cases += [_gen_oct(rng) for _ in range(ctx.pick(500, 4000))]
+    req = []
+    for c in cases:
+        args = [float(c["n"]), c["s"], c["e"]] + ([c["anchor"]] if c["anchor"] is not None else [])
+        req.append("oct %d %s | %s" % (c["exact"], {"outside": "o", "band": "o", "center": "c", "inside": "i"}[c["trim"]], _bits(args)))
+    rep = drv.ask(req)
+    for c, r in zip(cases, rep):
+        try:
+            with np.errstate(all="ignore"):
+                F, FL, FU = psd.get_freq_oct(c["n"], (c["s"], c["e"]), exact=c["exact"], trim=c["trim"], anchor=c["anchor"])
+            impl = "ok"
+        except ValueError:
+            impl = "value-error"
+        tie = _oct_near_tie(c)
+        br = "oct:%s:%s" % ("exact" if c["exact"] else "approx", "outside" if c["trim"] == "band" else c["trim"])
+        if impl != "ok" or r == "value-error":
+            ctx.case(("oct", json.dumps(c, sort_keys=True)), nontrivial=False, branch="oct:value-error")
+            if impl != r and not tie:
+                ctx.disagree("get-freq-oct", c, impl, r[:60])
+            continue
+        a, b, d = [_unbits(x) for x in r.split("|")]
+        if len(a) != len(F):
+            if tie:
+                ctx.skip("get_freq_oct: a trimming decision within rounding of a tie")
+            else:
+                ctx.disagree("get-freq-oct", c, {"len": len(F), "F": F.tolist()[:6]}, {"len": len(a), "F": a.tolist()[:6]})
+            continue
+        ctx.case(("oct", json.dumps(c, sort_keys=True)), nontrivial=True, branch=br)
+        if c["anchor"] is not None:
+            ctx.count("branch:oct-anchor-given")
+        if c["s"] <= 0:
+            ctx.count("branch:oct-frange0-nonpositive")
+        sc = float(np.max(F)) if len(F) else 1.0
+        if not (_close(F / sc, a / sc, 1.0) and _close(FL / sc, b / sc, 1.0) and _close(FU / sc, d / sc, 1.0)):
+            if tie and not _close(F / sc, a / sc, 1.0):
+                ctx.skip("get_freq_oct: a trimming decision within rounding of a tie")
+                continue
+            ctx.disagree("get-freq-oct", c, {"F": F.tolist()[:6], "FL": FL.tolist()[:6], "FU": FU.tolist()[:6]},
+                         {"F": a.tolist()[:6], "FL": b.tolist()[:6], "FU": d.tolist()[:6]})
+
+
 def correspondence(ctx):
     drv = ctx.driver("C19")
     _corr_index_rules(ctx, drv)
     _corr_fixtime(ctx, drv)
+    _corr_tnew(ctx, drv)
     _corr_resample(ctx, drv)
     _corr_psd(ctx, drv)
+    have_edges = _corr_edges(ctx, drv)
     _corr_rescale(ctx, drv)
+    _corr_oct(ctx, drv)
     ctx.exhaustive = False
-    ctx.require_branches([
+    ctx.require_branches(([
+        "branch:edges-nearlin-below-tol", "branch:edges-nearlin-above-tol", "branch:edges-get-fl-fu-linear",
+        "branch:edges-get-fl-fu-log", "branch:edges-input-scale-linear", "branch:edges-input-scale-log",
+        "branch:edges-exact-rational", "edges:exact", "edges:below-tol", "edges:above-tol",
+    ] if have_edges else []) + [
+        "branch:tnew-no-align", "branch:tnew-align-length-mismatch", "branch:tnew-align-mean", "branch:tnew-round-half-tie",
+        "branch:tnew-exact-compare", "branch:tnew-shifted", "branch:fixtime-tnew-end-to-end",
+        "branch:fixtime-outlier-time", "branch:fixtime-dropout-and-outlier-time", "branch:fixtime-dropval-dropout",
+        "branch:resample-upsample-q1", "branch:resample-constant-input", "branch:resample-integer-dtype-upsampled",
+        "branch:resample-dtype-float32", "branch:resample-dtype-list",
+        "branch:rescale-nearlin-below-tol", "branch:rescale-nearlin-above-tol",
+        "oct:exact:outside", "oct:exact:center", "oct:exact:inside", "oct:approx:outside", "oct:approx:center",
+        "oct:approx:inside", "oct:value-error", "branch:oct-anchor-given", "branch:oct-frange0-nonpositive",
         "branch:index-tie", "branch:index-out-of-range", "branch:index-duplicate-times",
         "branch:closest-wraps-to-minus-one", "branch:numba-for-else-zeros",
         "branch:fixtime-previous-tol0", "branch:resample-p>1-and-q>1", "branch:resample-tnew-noninteger-length",
@@ -821,14 +1391,31 @@ def _or_fixtime(ctx, c):
     r = _run_fixtime(c)
     if isinstance(r[0], str):
         return
-    tn, yn, tc, yc = r
-    if len(tc) == 0:
+    tn, yn, drops = r
+    if drops is None:
+        return
+    # the valid input samples, by brute force: neither drop-outs nor times more than 3 sigma from the mean
+    tc, yc, ref, tie = _clean_ref(c)
+    if len(tc) == 0 or tie:
         return
     dt = 1.0 / c["sr"]
     inp = dict(c)
+    if drops != ref:
+        both = bool(ref["dropouts"]) and bool(ref["outtimes"])
+        ctx.fail("fixtime-alldrops-bookkeeping" + ("-dropout-and-outlier-time" if both else ""),
+                 "fixinfo.alldrops does not list the drop-outs / the times more than 3 sigma from the mean / their union "
+                 "as positions in the record as given", inp, drops, ref)
+        return
     k = np.arange(len(tn))
     if len(tn) != len(yn) or not np.all(np.abs((tn - tn[0]) - k * dt) <= 1e-9 * dt):
         ctx.fail("fixtime-nonuniform-time-base", "fixtime's time vector is not tnew[0] + k/sr", inp, tn.tolist()[:12], "uniform, step %r" % dt)
+        return
+    # the documented span rule: round((t_end - t_0) * sr) + 1 points (Python's round: halves to even)
+    L = int(round(float((tc[-1] - tc[0]) * c["sr"]))) + 1
+    if len(tn) != L:
+        half = ((Fraction(float(tc[-1])) - Fraction(float(tc[0]))) * c["sr"]) % 1 == Fraction(1, 2)
+        ctx.fail("fixtime-time-base-length" + ("-half-step-tie" if half else ""),
+                 "fixtime's uniform time vector does not have round((t_end - t_0)*sr) + 1 points", inp, len(tn), L)
         return
     # the expected sample for every new time, by brute force over the cleaned input
     want = []
@@ -899,6 +1486,22 @@ def _or_spec(ctx, spec):
         else:
             fam = "area-slope-minus-one" if any(abs(s + 1) < 1e-8 for s in sl) else "area-integral"
             ctx.fail(fam, "psd.area differs from the integral of the log-log interpolation", inp, a, ref)
+    # ... and against the integral of psd.interp itself (48-point Gauss-Legendre in ln f per segment)
+    gx, gw = np.polynomial.legendre.leggauss(48)
+    xs, ws = [], []
+    for (f1, _), (f2, _) in zip(spec, spec[1:]):
+        L = math.log(f2 / f1)
+        u = 0.5 * L * (gx + 1.0)
+        x = np.clip(f1 * np.exp(u), f1, f2)
+        xs.append(x)
+        ws.append(0.5 * L * gw * x)
+    with np.errstate(all="ignore"):
+        vals = psd.interp(arr, np.concatenate(xs)).ravel()
+    integ = float(np.sum(vals * np.concatenate(ws)))
+    if not abs(a - integ) <= (rtol + 1e-10) * abs(integ):
+        if not any(0 < abs(s_ + 1) < 1e-5 for s_ in sl) or abs(a - integ) > 1e-4 * abs(integ):
+            ctx.fail("area-vs-integral-of-interp", "psd.area differs from the numerical integral of psd.interp(spec, f) over the specification's range",
+                     inp, a, integ)
     if len(spec) > 2:
         k = len(spec) // 2
         with np.errstate(all="ignore"):
@@ -1016,6 +1619,214 @@ def _or_rescale_oct(ctx, c):
     ctx.count("oracle:rescale-n_oct")
 
 
+def _or_oct(ctx, c):
+    """get_freq_oct as documented: FU/FL = 2^(1/n) (10^(3/(10n))), F = sqrt(FL*FU), contiguous bands on the anchored
+    grid, and the three trimming rules"""
+    from pyyeti import psd
+
+    n, ex, tr = c["n"], c["exact"], c["trim"]
+    try:
+        with np.errstate(all="ignore"):
+            F, FL, FU = psd.get_freq_oct(n, (c["s"], c["e"]), exact=ex, trim=tr, anchor=c["anchor"])
+    except ValueError:
+        return
+    if len(F) == 0:
+        return
+    R = 2.0 ** (1.0 / n) if ex else 10.0 ** (3.0 / (10 * n))
+    a = c["anchor"] or (1000.0 if ex else 1.0)
+    s = c["s"] if c["s"] > 0 else 1.0
+    e = c["e"]
+    rt = 1e-11
+
+    def rel(x, y):
+        return np.all(np.abs(np.asarray(x) - np.asarray(y)) <= rt * np.abs(np.asarray(y)))
+
+    obs = {"F": F.tolist()[:4], "FL": FL.tolist()[:4], "FU": FU.tolist()[:4], "len": len(F)}
+    if not rel(FU / FL, R):
+        ctx.fail("get-freq-oct-band-ratio", "get_freq_oct: FU/FL is not 2^(1/n) (exact) / 10^(3/(10n))", c, obs, R)
+        return
+    if not rel(F * F, FL * FU):
+        ctx.fail("get-freq-oct-centre-not-geometric-mean", "get_freq_oct: F is not sqrt(FL*FU)", c, obs, "F**2 == FL*FU")
+        return
+    if len(F) > 1 and not (rel(FU[:-1], FL[1:]) and rel(F[1:] / F[:-1], R)):
+        ctx.fail("get-freq-oct-bands-not-contiguous", "get_freq_oct: consecutive bands do not share an edge / centres are not a geometric progression", c, obs, R)
+        return
+    kk = math.log(F[0] / a) / math.log(R)
+    if abs(kk - round(kk)) > 1e-7 * max(1.0, abs(kk)):
+        ctx.fail("get-freq-oct-anchor", "get_freq_oct: centre frequencies are not anchor * ratio^integer", c, obs, a)
+        return
+    if _oct_near_tie(c) or s > e:
+        return
+    g = 1.0 + 1e-9
+    if tr in ("outside", "band"):
+        ok = FL[0] <= s * g and s <= FU[0] * g and FL[-1] <= e * g and e <= FU[-1] * g
+        what = "first band includes frange[0] and last band includes frange[-1]"
+    elif tr == "center":
+        ok = s <= F[0] * g and F[0] < s * R * g and F[-1] <= e * g and e < F[-1] * R * g
+        what = "exactly the centre frequencies inside frange"
+    else:
+        ok = s <= FL[0] * g and FL[0] < s * R * g and FU[-1] <= e * g and e < FU[-1] * R * g
+        what = "exactly the bands lying inside frange"
+    if not ok:
+        ctx.fail("get-freq-oct-trim-" + ("outside" if tr == "band" else tr), "get_freq_oct(trim=%r) does not return %s" % (tr, what), c,
+                 {"first": [float(FL[0]), float(F[0]), float(FU[0])], "last": [float(FL[-1]), float(F[-1]), float(FU[-1])]}, [s, e])
+    ctx.count("oracle:get-freq-oct")
+
+
+def _gen_psd2time(rng):
+    f0 = float(rng.choice([5, 10, 20, 35]))
+    return {"f0": f0, "f1": f0 * float(rng.choice([1.5, 2, 4, 10])), "ppc": float(rng.choice([3, 4, 10, 2.5])),
+            "df": rng.choice([None, f0 / 50, f0 / 7.3, 0.37]), "em": rng.choice(["interp", "rescale"]), "pseed": rng.randint(0, 10 ** 6),
+            "lvl": [0.01 * rng.choice([0.5, 1.0, 2.0]), 0.1, 0.03]}
+
+
+def _or_psd2time(ctx, c):
+    """psd2time's conservation claim: the signal's mean-square is sum(PSD(f) * df) over its sinusoids; sr, N, time base"""
+    from pyyeti import psd
+
+    f0, f1, ppc, df = c["f0"], c["f1"], c["ppc"], c["df"]
+    spec = np.array([[f0 * 0.5, c["lvl"][0]], [f0 * 1.3, c["lvl"][1]], [f1 * 2, c["lvl"][2]]])
+    with warnings.catch_warnings():
+        _quiet()
+        sig, sr, t = psd.psd2time(spec, f0, f1, ppc=ppc, df=df, gettime=True, expand_method=c["em"], rng=np.random.default_rng(c["pseed"]))
+    d = f0 / 100 if df is None else min(df, f0)
+    N = int(np.ceil(f1 * ppc * (1 / d)))
+    d = f1 * ppc / N
+    d = f0 / np.floor(f0 / d)
+    freq = np.arange(f0, f1 + d, d)
+    with np.errstate(all="ignore"):
+        lvl = psd.interp(spec, freq).ravel() if c["em"] == "interp" else psd.rescale(spec[:, 1], spec[:, 0], freq=freq)[0]
+    want = float(np.sum(lvl * d))
+    got = float(np.mean(sig ** 2))
+    if len(sig) != N or abs(sr - N * d) > 1e-9 * sr or not np.allclose(t, np.arange(N) / sr, rtol=1e-12, atol=0):
+        ctx.fail("psd2time-length-or-rate", "psd2time: number of points / sample rate / time vector differ from the documented N, N*df, arange(N)/sr",
+                 c, [len(sig), float(sr)], [N, N * d])
+    elif not abs(got - want) <= 1e-9 * want:
+        ctx.fail("psd2time-mean-square", "psd2time: mean-square of the signal is not sum(PSD(f)*df) over its frequencies", c, got, want)
+    ctx.count("oracle:psd2time")
+
+
+def _or_psdmod(ctx, c):
+    """psdmod = maximum over the time slices of Welch PSDs; one slice covering the signal = Welch itself"""
+    from pyyeti import psd
+    import scipy.signal as signal
+
+    sig = np.random.default_rng(c["mseed"]).normal(size=c["len"])
+    sr, nper = c["sr"], c["nperseg"]
+    f, p = psd.psdmod(sig, sr, nperseg=nper, timeslice=c["len"] / sr, tsoverlap=0.5)
+    f2, p2 = signal.welch(sig, sr, nperseg=nper)
+    if not (np.array_equal(f, f2) and np.allclose(p, p2, rtol=1e-12, atol=0)):
+        ctx.fail("psdmod-whole-signal-differs-from-welch", "psdmod with one time slice covering the signal differs from scipy.signal.welch", c,
+                 p.tolist()[:4], p2.tolist()[:4])
+        return
+    f, p, pm, t = psd.psdmod(sig, sr, nperseg=nper, timeslice=c["slice"], tsoverlap=0.5, getmap=True)
+    if not np.array_equal(p, pm.max(axis=1)):
+        ctx.fail("psdmod-not-max-of-map", "psdmod is not the maximum over the columns of its PSD map", c, p.tolist()[:4], pm.max(axis=1).tolist()[:4])
+    ctx.count("oracle:psdmod")
+
+
+def _or_nanspec(ctx, spec, row):
+    """proc_psd_spec: rows whose frequency is NaN are deleted (area and interp are unchanged by them)"""
+    from pyyeti import psd
+
+    arr = np.array(spec)
+    dirty = np.insert(arr, row, [np.nan, 7.0], axis=0)
+    x = np.sqrt(arr[:-1, 0] * arr[1:, 0])
+    with np.errstate(all="ignore"):
+        a, b = psd.area(arr), psd.area(dirty)
+        i1, i2 = psd.interp(arr, x), psd.interp(dirty, x)
+    if not (np.array_equal(a, b) and np.array_equal(i1, i2)):
+        ctx.fail("spec-nan-frequency-row", "a specification row with NaN frequency is not ignored by area/interp", {"spec": spec, "nanrow": row},
+                 [b.tolist(), i2.ravel().tolist()[:4]], [a.tolist(), i1.ravel().tolist()[:4]])
+    ctx.count("oracle:spec-nan-row")
+
+
+def _or_spec_float32(ctx, spec):
+    """a specification stored in single precision: area and interp must agree with the same numbers as float64 to single
+    precision; -> True if a failure was reported"""
+    from pyyeti import psd
+
+    a64 = np.array(spec, dtype=np.float64)
+    a32 = a64.astype(np.float32)
+    if not np.array_equal(a32.astype(np.float64), a64):
+        return False
+    x = np.sqrt(a64[:-1, 0] * a64[1:, 0])
+    with np.errstate(all="ignore"):
+        ar32, ar64 = psd.area(a32), psd.area(a64)
+        i32, i64 = np.asarray(psd.interp(a32, x.astype(np.float32))).ravel(), psd.interp(a64, x).ravel()
+    if not np.allclose(ar32, ar64, rtol=1e-5, atol=0):
+        near = any(abs(sl + 1) < 1e-5 for sl in _slopes([tuple(r) for r in a64.tolist()]))
+        ctx.fail("area-float32-slope-minus-one" if near else "psd-spec-dtype",
+                 "psd.area of a specification stored as float32 differs from the area of the same numbers as float64"
+                 + (" (a -3 dB/octave segment whose computed slope misses the 1e-8 test in single precision contributes (f2*p2 - f1*p1)/(s+1) = 0)"
+                    if near else ""), {"spec32": [list(r) for r in a64.tolist()]}, np.asarray(ar32, dtype=float).tolist(), ar64.tolist())
+        return True
+    if not np.allclose(i32, i64, rtol=1e-4, atol=0):
+        ctx.fail("psd-spec-dtype", "psd.interp of a specification stored as float32 differs from the same numbers as float64",
+                 {"spec32": [list(r) for r in a64.tolist()]}, i32.tolist(), i64.tolist())
+        return True
+    return False
+
+
+def _or_dtypes(ctx, inp):
+    """storage type of the inputs of fixtime / area / interp / rescale: integer arrays, single precision, Python lists -
+    the result must be that of the same numbers as float64"""
+    from pyyeti import dsp, psd
+
+    rng = np.random.default_rng(inp["tseed"])
+    n = int(rng.integers(8, 40))
+    # fixtime: integer time tags (sr = 1) with gaps, integer data
+    t = np.cumsum(rng.choice([1, 1, 1, 1, 2, 3], size=n)).astype(np.int64)
+    y = rng.integers(0, 250, size=n)
+    with warnings.catch_warnings():
+        _quiet()
+        ref = dsp.fixtime((t.astype(float), y.astype(float)), 1, verbose=False)
+        for tt, yy, nm in ((t, y, "int64"), (t.astype(np.int16), y.astype(np.uint8), "int16/uint8"), (t.tolist(), y.tolist(), "list"),
+                           (t.astype(np.float32), y.astype(np.float32), "float32"), (t.astype(float), y.astype(np.int32), "float64/int32")):
+            got = dsp.fixtime((tt, yy), 1, verbose=False)
+            if not (np.array_equal(np.asarray(got[0], dtype=float), ref[0]) and np.array_equal(np.asarray(got[1], dtype=float), ref[1])):
+                ctx.fail("fixtime-dtype", "fixtime of a record stored as %s differs from the same record as float64" % nm,
+                         dict(inp, dtype=nm, t=t.tolist(), y=y.tolist()), [np.asarray(got[0]).tolist()[:8], np.asarray(got[1]).tolist()[:8]],
+                         [ref[0].tolist()[:8], ref[1].tolist()[:8]])
+                return
+    # area / interp on an integer specification
+    m = int(rng.integers(2, 6))
+    f = np.cumsum(rng.integers(1, 40, size=m)) + 5
+    p = rng.integers(1, 9, size=m)
+    spec_i = np.column_stack([f, p])
+    x = [float(v) for v in np.sqrt(f[:-1] * f[1:])]
+    with np.errstate(all="ignore"):
+        a_f = psd.area(spec_i.astype(float))
+        i_f = psd.interp(spec_i.astype(float), x).ravel()
+        if _or_spec_float32(ctx, spec_i.tolist()):
+            return
+        for sp, nm in ((spec_i, "int64 array"), (spec_i.astype(np.int32), "int32 array"), ((f.tolist(), p.tolist()), "lists")):
+            rt = 1e-12
+            a = psd.area(sp)
+            i_ = np.asarray(psd.interp(sp, x)).ravel()
+            if not (np.allclose(a, a_f, rtol=rt, atol=0) and np.allclose(i_, i_f, rtol=rt, atol=0)):
+                ctx.fail("psd-spec-dtype", "area/interp of a specification stored as %s differs from the same numbers as float64" % nm,
+                         dict(inp, dtype=nm, spec=spec_i.tolist()), [np.asarray(a).tolist(), i_.tolist()], [a_f.tolist(), i_f.tolist()])
+                return
+    # rescale with integer centre frequencies / levels
+    F = np.arange(1, int(rng.integers(8, 30)))
+    P = rng.integers(1, 9, size=len(F))
+    freq = np.arange(2, len(F), 2)
+    for ext in (True, False):
+        with np.errstate(all="ignore"):
+            r_f = psd.rescale(P.astype(float), F.astype(float), freq=freq.astype(float), extendends=ext)
+            for (PP, FF, fq), nm in (((P, F, freq), "int64 arrays"), ((P.tolist(), F.tolist(), freq.tolist()), "lists"),
+                                     ((P.astype(np.int16), F.astype(np.int16), freq.astype(np.int16)), "int16 arrays")):
+                r_ = psd.rescale(PP, FF, freq=fq, extendends=ext)
+                if not (np.allclose(r_[0], r_f[0], rtol=1e-12, atol=0) and np.allclose(r_[3], r_f[3], rtol=1e-12, atol=0)
+                        and abs(r_[2] - r_f[2]) <= 1e-12 * abs(r_f[2])):
+                    ctx.fail("rescale-dtype", "rescale of inputs stored as %s differs from the same numbers as float64" % nm,
+                             dict(inp, dtype=nm, P=P.tolist(), F=F.tolist(), freq=freq.tolist(), ext=ext),
+                             np.asarray(r_[0]).tolist()[:6], np.asarray(r_f[0]).tolist()[:6])
+                    return
+    ctx.count("oracle:dtypes")
+
+
 def _gen_resample(rng):
     return {"n": rng.randint(1, 90), "p": rng.randint(1, 9), "q": rng.randint(1, 9), "pts": rng.choice([3, 5, 10, 10, 15]),
             "dseed": rng.randint(0, 10 ** 6), "offset": rng.choice([0.0, 5.0]), "fr": rng.choice([0.01, 0.02, 0.04])}
@@ -1058,6 +1869,28 @@ def _or_resample(ctx, inp):
                      kept.tolist()[:8], ref.tolist()[:8])
             return
         ctx.count("oracle:resample-upsample")
+    # storage type: integer counts, single precision, lists, 2-D - against the float64 result of the same numbers
+    for dtn in _DTYPES:
+        typed, nums = _typed_numbers(nprng, ln, dtn)
+        tol = (1e-4 if dtn == "float32" else 1e-9) * max(1.0, float(np.abs(nums).max()))
+        o_t = np.asarray(dsp.resample(typed, p, q, pts=pts), dtype=float)
+        o_f = dsp.resample(nums, p, q, pts=pts)
+        bad = o_t.shape != o_f.shape or not np.all(np.abs(o_t - o_f) <= tol)
+        if not bad and pr >= qr:
+            kept = o_t[::pr][: len(nums[::qr])]
+            bad = not np.all(np.abs(kept - nums[::qr][: len(kept)]) <= max(tol, 1e-9 * max(1.0, float(np.abs(nums).max()))))
+        if not bad and dtn != "list":
+            t2 = np.column_stack([np.asarray(typed), np.asarray(typed)[::-1]])
+            o0 = np.asarray(dsp.resample(t2, p, q, pts=pts, axis=0), dtype=float)
+            o1 = np.asarray(dsp.resample(t2.T.copy(), p, q, pts=pts, axis=1), dtype=float)
+            bad = o0.shape != (want_len, 2) or not np.all(np.abs(o0[:, 0] - o_f) <= tol) or not np.all(np.abs(o1.T - o0) <= tol)
+        if bad:
+            ctx.fail("resample-dtype-" + ("float32" if dtn == "float32" else "integer"),
+                     "resampling numbers stored as %s differs from resampling the same numbers as float64 "
+                     "(or does not keep the original samples when upsampling)" % dtn, dict(inp, dtype=dtn, data=nums.tolist()),
+                     o_t.tolist()[:8], o_f.tolist()[:8])
+            return
+    ctx.count("oracle:resample-dtypes")
     # 2-D, axis handling
     d2 = nprng.normal(size=(ln, 3))
     o0 = dsp.resample(d2, p, q, pts=pts, axis=0)
@@ -1121,13 +1954,19 @@ def _or_index_private(ctx, told, tnew, nb):
 
 
 def _hint_inputs(hints):
-    out = {"fixtime": [], "spec": [], "rescale": []}
+    out = {"fixtime": [], "spec": [], "rescale": [], "oct": []}
     for h in hints[:200]:
         i = h.get("input")
         if not isinstance(i, dict):
             continue
         if "hold" in i and "t" in i:
             out["fixtime"].append(i)
+        elif "told" in i and "sr" in i and not isinstance(i["told"][0], str):
+            for hold in (False, True):
+                out["fixtime"].append({"t": list(i["told"]), "y": ["%r" % float(k) for k in range(len(i["told"]))], "sr": i["sr"], "hold": hold,
+                                       "tol": 1e-3, "deldrops": True, "delouttimes": False, "kind": "hint"})
+        elif "trim" in i and "exact" in i:
+            out["oct"].append(i)
         elif "spec" in i:
             out["spec"].append([tuple(r) for r in i["spec"]])
         elif "freq" in i and "F" in i:
@@ -1182,6 +2021,25 @@ def search(ctx, hints):
             return
     for _ in range(ctx.pick(150, 1200)):
         _or_rescale_oct(ctx, _gen_rescale_oct(rng, nprng))
+    # get_freq_oct, psd2time, psdmod, NaN rows -------------------------------------------------
+    octs = [{"n": 3, "s": 505.0, "e": 900.0, "exact": ex, "trim": tr, "anchor": None} for ex in (False, True) for tr in ("outside", "center", "inside")]
+    octs = list(h["oct"][:40]) + octs + [_gen_oct(rng) for _ in range(ctx.pick(400, 3000))]
+    for c in octs:
+        _or_oct(ctx, c)
+        if len(ctx.failures) > 12:
+            return
+    for _ in range(ctx.pick(10, 60)):
+        _or_psd2time(ctx, _gen_psd2time(rng))
+    for _ in range(ctx.pick(2, 8)):
+        _or_psdmod(ctx, {"mseed": rng.randint(0, 10 ** 6), "len": 4000, "sr": 400.0, "nperseg": rng.choice([100, 200]), "slice": rng.choice([1.0, 2.0])})
+    for sp in specs[:ctx.pick(60, 400)]:
+        if len(sp) >= 2:
+            _or_nanspec(ctx, sp, rng.randrange(0, len(sp) + 1))
+    # single-precision specifications; the first one is finding area-float32-slope-minus-one's reproducer
+    for sp in ([[42.0, 8.0], [48.0, 7.0]], [[1.0, 1.0], [2.0, 0.5]], [[10.0, 4.0], [20.0, 2.0], [40.0, 1.0]], [[20.0, 1.0], [40.0, 4.0], [80.0, 2.0]]):
+        _or_spec_float32(ctx, sp)
+    for _ in range(ctx.pick(25, 200)):
+        _or_dtypes(ctx, {"tseed": rng.randint(0, 10 ** 6)})
     # resample ------------------------------------------------------------------------
     _or_resample(ctx, {"n": 89, "p": 3, "q": 7, "pts": 10, "dseed": 1, "offset": 0.0, "fr": 0.02})  # F32's input
     for _ in range(ctx.pick(250, 2000)):
@@ -1197,8 +2055,20 @@ def replay(ctx, data):
     sub = type(ctx)(ctx.prop, ctx.tier, ctx.seed)
     if "hold" in i and "t" in i:
         _or_fixtime(sub, i)
+    elif "spec32" in i:
+        _or_spec_float32(sub, i["spec32"])
+    elif "tseed" in i:
+        _or_dtypes(sub, {"tseed": i["tseed"]})
+    elif "nanrow" in i:
+        _or_nanspec(sub, [tuple(r) for r in i["spec"]], i["nanrow"])
     elif "spec" in i:
         _or_spec(sub, [tuple(r) for r in i["spec"]])
+    elif "trim" in i:
+        _or_oct(sub, i)
+    elif "pseed" in i:
+        _or_psd2time(sub, i)
+    elif "mseed" in i:
+        _or_psdmod(sub, i)
     elif "n_oct" in i:
         _or_rescale_oct(sub, i)
     elif "freq" in i and "F" in i:
